@@ -252,3 +252,10 @@ let register_pool reg =
   reg "c03_ok" (function [ids; lim; e] -> show_bool (c03_ok (zlist ids) (zv lim) (bv e)) | _ -> failwith "arity");
   reg "c04_ok" (function [h; c; sh; rv] -> show_bool (c04_ok (zv h) (zv c) (bv sh) (bv rv)) | _ -> failwith "arity")
 let () = section register_pool
+
+(* ---- C09 *)
+let register_c09 reg =
+  reg "c09_ok" (function
+    | [iv; times; values; st; dr; ex] -> show_bool (c09_ok (zv iv) (zlist times) (zlist values) (zv st) (zv dr) (bv ex))
+    | _ -> failwith "arity")
+let () = section register_c09
